@@ -50,6 +50,21 @@ pub fn generate(ctx: &mut Ctx) {
             }
         }
     }
+    for len in gen::sweep_lengths() {
+        if len > 5000 {
+            continue;
+        }
+        if ctx.mine(bi) {
+            let b = "a".repeat(len);
+            let e = "\u{e9}".repeat(len);
+            for init in ["s://u@h:1/p/q?k#f", "p/q?k#f", "//h", "s:", "s://\u{e9}/\u{e9}?\u{e9}#\u{e9}"] {
+                for op in [format!("path:/{}", b), format!("path:{}", e), format!("query:{}", b), format!("frag:{}", e), format!("auth:{}", b), format!("auth:u@{}:8", e), format!("scheme:a{}", b), format!("path://{}", b), format!("path:{}:x", b)] {
+                    ctx.run(Case::new("set").arg(init).arg(&op));
+                }
+            }
+        }
+        bi += 1;
+    }
     let n = ctx.by_tier(200_000u64, 2_000_000u64) / ctx.nshards;
     for i in 0..n {
         let mut rng = ctx.rng("set", i);
